@@ -31,11 +31,11 @@ TEXT = {
    text="Generated sequences of StoreLog/StoreLogs/GetLog/DeleteRange/FirstIndex/LastIndex/Set/Get/SetUint64/GetUint64/reopen (also with the sync option switched) with indexes anywhere in uint64 and payloads up to 64 KB are run on the real RocksDB-backed log store (consensus hook) and compared field by field with a map model, again after reopen and a clean process end. Exploration.",
    note="Stable-store values are non-empty and uint64/byte settings use separate keys (as raft does); RocksDB is trusted.", ref="§5 C15"),
  "C05": dict(tech="rapid stateful sequence-model testing at balloon and RaftNode level (restarts, SIGKILL crash points, forced snapshots) with dense-version oracle",
-   text="Generated histories of single/bulk adds interleaved with restarts, crash points, snapshots (and, in the cluster tier, leadership transfers) are run on the real Balloon / RaftNode; the k-th acknowledged event must carry version k-1, bulks consecutive versions in request order, each snapshot its own event digest, and proofs CurrentVersion = accepted-1; a further unit runs 2-16 clients at once against one node and requires every acknowledgement to bind its own events and the versions to be exactly 0..N-1 once. Exploration.",
+   text="Generated histories of single/bulk adds interleaved with restarts, crash points, injected write faults (the store refuses a write), snapshots (and, in the cluster tier, leadership transfers) are run on the real Balloon / RaftNode; the k-th acknowledged event must carry version k-1, bulks consecutive versions in request order, each snapshot its own event digest, and proofs CurrentVersion = accepted-1; a further unit runs 2-16 clients at once against one node and requires every acknowledgement to bind its own events and the versions to be exactly 0..N-1 once. Exploration.",
    note="Failures that belong to other properties (node death, digests) make a case inconclusive here, not a violation.", ref="§5 C05"),
  "C07": dict(tech="fault injection: enumeration of every crash point (before/after each store write) of rapid-generated workloads, SIGKILL + restart, prefix/exactly-once oracle vs reference model",
-   text="For each generated workload every apply x {before, after the store write} is crashed by SIGKILL through a wrapper around the real RocksDB store, the node is restarted and must reach exactly acknowledged+in-flight events, continue with reference-equal snapshots and keep every pre-crash snapshot verifiable. Exhaustive over the crash points of each generated workload; workloads are sampled. A second unit kills a node at wall-clock instants of a running stream (half of the streams start with a bulk above 1000 events) with an oracle that does not depend on where the kill landed.",
-   note="SIGKILL keeps the page cache (no torn writes); crash inside RocksDB's own write is not placeable; single node.", ref="§5 C07"),
+   text="For each generated workload every apply x {before, after the store write} is crashed by SIGKILL through a wrapper around the real RocksDB store, the node is restarted and must reach exactly acknowledged+in-flight events, continue with reference-equal snapshots and keep every pre-crash snapshot verifiable. Exhaustive over the crash points of each generated workload; workloads are sampled. A second unit kills a node at wall-clock instants of a running stream (half of the streams start with a bulk above 1000 events) with an oracle that does not depend on where the kill landed; in half of its cases the node kills itself a drawn number of microseconds after a store write entered RocksDB (a kill aimed inside the write).",
+   note="SIGKILL keeps the page cache (no torn writes); a crash inside RocksDB's own write can only be aimed at by time, not placed; single node.", ref="§5 C07"),
  "C08": dict(tech="rapid histories x stop points; metamorphic oracle (restarted node == reference model of the uninterrupted run) + process-exit observation in a child",
    text="Generated workloads are run with clean stop/restart at every / one / some stop points on RocksDB (child processes: Close must return, exit status 0, no abort) and on bplus (re-constructed Balloon); all later snapshots must equal the reference of the uninterrupted sequence and proofs of pre-stop events verify against pre-stop snapshots; a cluster unit stops a follower again while it is still applying the backlog it missed (Close must return within 60 s, afterwards the replica must equal the others); a complete server.Server is stopped while read-only clients (metrics scrapes, queries, management listing) keep calling, restarted and held to the same oracle. Exploration.",
    note="Debian librocksdb has assertions on: a leaked iterator at close aborts the child, which is how 'releases every storage resource' is observed. Shutdown liveness = 30 s bound.", ref="§5 C08"),
@@ -61,7 +61,7 @@ TEXT = {
    text="Four tiers: generated redelivery multiplicities/orders must create AND execute (real SimpleTasksManager) tasks at most once per batch; generated TTLs and roles on real loopback gossip networks must show TTL decreasing per hop, TTL 0 never sent, at most one peer per role, no self-delivery and terminating dissemination with forwarding on; Topology is checked against a sequential model and under concurrent update/route goroutines with the race detector. Exploration.",
    note="Sender identity comes from payload ids (Message.From arrives nil); memberlist is trusted; negative TTLs are not generated.", ref="§5 C18"),
  "C19": dict(tech="rapid tampering operators (gossiped snapshot / store / log answer) against the real agent task factories with a ground-truth verdict computed by the harness; redelivery patterns for the publisher",
-   text="The real auditor, monitor and publisher task factories, wired as `qed agent` wires them to the real RestSnapshotStore and SimpleNotifier (httptest snapshot-store and alerts services; alerts counted at the endpoint), run against an honest log served by the real API handlers and client; each generated batch carries one alteration or none; the harness computes the ground-truth verdict from the published material: no alert without tampering, an alert whenever that verdict is false; the publisher must forward each distinct signature exactly once under generated redelivery patterns. Exploration.",
+   text="The real auditor, monitor and publisher task factories, wired as `qed agent` wires them to the real RestSnapshotStore and SimpleNotifier (httptest snapshot-store and alerts services; alerts counted at the endpoint), run against an honest log served by the real API handlers and client; each generated batch carries one alteration or none; the harness computes the ground-truth verdict from the published material: no alert without tampering, an alert whenever that verdict is false; the publisher must forward each distinct signature exactly once under generated redelivery patterns; the pipeline unit also sends alert storms (more failing batches than the notifier's default queue, slow alerts service). Exploration.",
    note="A fresh client per batch (a failed request marks the only endpoint dead in the client); tasks that cannot fetch their inputs need not alert (statement is about proofs that fail to verify).", ref="§5 C19"),
  "C20": dict(tech="rapid stateful model-based testing of the client topology (hook) + black-box sequences against real API handlers over a scripted cluster",
    text="Tier 1: generated Update/MarkAsDead/MarkAsAlive/read sequences on the client's topology with roles from the model: selections must be alive, permitted, exhaustive and fair. Tier 2: the real HTTPClient with generated options against httptest servers running the real apihttp handlers over a scripted leader/fault state: insertions only reach believed leaders, successful insertions were executed by the leader, reads respect the preference, leader moves are followed via redirect/discovery, calls are bounded in time and requests. Exploration.",
